@@ -17,8 +17,10 @@ decidable situations (`Finding`):
 * `errorOperand`— an operand of `or` / `not` without a boolean value in the VPL evaluator
                   (missing field, incomparable types, non-boolean operand).
 
-A third difference — ordering comparisons of two strings had no value in `.where` — was repaired by
-a `fix:` commit (`string_order_defect_witness`); mixed int/float `<=`/`>=` by the C08 repairs.
+Two further differences were repaired by `fix:` commits: ordering comparisons of two strings had no
+value in `.where` (`string_order_defect_witness`), and a step filter containing `in` / `not in` / `is`
+anywhere below `and`/`or`/`not` was dropped as a whole, the step accepting every event
+(`dropped_filter_defect_witness`). Mixed int/float `<=`/`>=` was repaired under C08.
 -/
 namespace Varpulis.Props.C09
 open Varpulis.Val Varpulis.Filter
@@ -86,6 +88,15 @@ theorem string_order_defect_witness :
     ∧ stepAccepts (.cmp .lt (.field "name") (.lit (.str "m"))) [("name", .str "a")] = true := by
   decide +kernel
 
+/-- the defect repaired by the `fix:` commit in compiler.rs: `x > 1 and y in z` had no predicate
+form, so the old translation returned `None` for the whole filter and the step accepted every
+event — here one with `x = 0`; now both contexts reject it -/
+theorem dropped_filter_defect_witness :
+    let e : FExpr := .and (.cmp .gt (.field "x") (.lit (.int 1))) (.other .isIn (.field "y") (.field "z"))
+    let ev : Event := [("x", .int 0), ("y", .str "b"), ("z", .str "abc")]
+    toPredOld e = none ∧ stepAcceptsOld e ev = true ∧ whereAccepts e ev = false ∧ stepAccepts e ev = false := by
+  decide +kernel
+
 /-- `not (x > 1)` on an event without `x`: dropped by `.where`, accepted by the step -/
 theorem witness_not_missing :
     whereAccepts (.not (.cmp .gt (.field "x") (.lit (.int 1)))) [] = false
@@ -117,7 +128,7 @@ theorem witnesses_classified :
 int, a float, a string, a bool and a missing field, and both contexts accept it -/
 example :
     let e : FExpr := .and (.or (.cmp .ge (.field "i") (.lit (.float ⟨0x3ff8000000000000⟩))) (.not (.atom (.field "b"))))
-                          (.and (.cmp .ne (.field "s") (.lit (.str "x"))) (.cmp .lt (.field "missing") (.lit (.int 3))))
+                          (.and (.other .isIn (.lit (.str "a")) (.field "s")) (.cmp .lt (.field "missing") (.lit (.int 3))))
     let e' : FExpr := .and (.or (.cmp .ge (.field "i") (.lit (.float ⟨0x3ff8000000000000⟩))) (.not (.atom (.field "b"))))
                           (.cmp .ne (.field "s") (.lit (.str "x")))
     let ev : Event := [("i", .int 2), ("f", .float ⟨0x4004000000000000⟩), ("s", .str "a"), ("b", .bool true)]
